@@ -337,6 +337,16 @@ func c12Counts(out *c10Out, cs *c12Case, bounds, lats []int64, level string) (h 
 		t0 := time.Unix(1_600_000_000, 0).UTC()
 		for i, l := range lats {
 			r := vegeta.Result{Code: 200, Timestamp: t0.Add(time.Duration(i) * time.Microsecond), Latency: time.Duration(l)}
+			// results as an attack produces them: a mix of status codes, repeated error texts, bodies - none
+			// of which has anything to do with the bucket a result belongs to
+			switch (i + len(lats)) % 5 {
+			case 1:
+				r.Code, r.Error = 500, "500 Internal Server Error"
+			case 2:
+				r.Code, r.Error = 0, "connection refused"
+			case 3:
+				r.Code, r.Error, r.BytesIn = 404, "404 Not Found", 12
+			}
 			h.Add(&r)
 			m.Add(&r)
 		}
